@@ -66,30 +66,27 @@ def classTag : Option (Class String) → String
   | some (.coord _) => "coord" | some .comm => "comm" | some (.tss _ true) => "tss" | some (.tss _ false) => "tss-undecodable"
   | some .subset => "subset" | some .unknown => "unknown"
 
-/-- model of what the scenario observes after the first failure `e` -/
+/-- the model of what the scenario observes after the first failure `e` (`secondAttempt` with the intended election
+    rule), rendered in the harness' format -/
 def second (self : String) (t : Nat) (sid : Bytes) (holders : List String) (e : Err String) (retryable : Bool)
     (claimant : Option String) (arrivals : List String) : String × String :=
-  match afterFailure retryable e with
-  | .giveUp =>
+  let key := keyOf sid (keyTab sid (self :: holders ++ claimant.toList ++ arrivals))
+  let r := secondAttempt bullyElectedListed key self t holders e retryable claimant arrivals
+  let sel := match r.election with | some cs => toks cs | none => "none"
+  match r.outcome with
+  | .ended =>
+    -- the returned error: PeersFromParties' own (untyped) error for an undecodable culprit, else the original one
     let res := if retryable && (match classify e with | .tss _ false => true | _ => false) then "other" else render e
-    (s!"sel=none;r=-;start=none;run=-;res={res}", "giveup")
-  | .waitStart =>
-    match claimant with
-    | some r => (s!"sel=none;r={tokOf r};start=none;run=w:p1;res=ok", "waitstart:started")
-    | none => ("sel=none;r=-;start=none;run=-;res=ok", "waitstart:idle")
-  | .retry ex =>
-    let cands := nextCandidates holders ex
-    let key := keyOf sid (keyTab sid (self :: holders ++ claimant.toList ++ arrivals))
-    let sel := toks (sortDesc key cands)
-    let elected := bullyElectedListed key self cands claimant
-    if elected = self then
-      match initiate key ⟨self, holders, t, ex⟩ arrivals with
-      | some (_, S) => (s!"sel={sel};r=-;start={toks S};run=c:{toks S};res=ok", "retry:coordinates:announced")
-      | none => (s!"sel={sel};r=-;start=none;run=-;res=ok", "retry:coordinates:never-ready")
-    else (s!"sel={sel};r={tokOf elected};start=none;run=w:p1;res=ok", "retry:follows-claimant")
+    (s!"sel={sel};r=-;start=none;run=-;res={res}", "giveup")
+  | .idle => (s!"sel={sel};r=-;start=none;run=-;res=ok", "waitstart:idle")
+  | .follows c =>
+    (s!"sel={sel};r={tokOf c};start=none;run=w:p1;res=ok", if r.election.isSome then "retry:follows-claimant" else "waitstart:started")
+  | .announces S => (s!"sel={sel};r=-;start={toks S};run=c:{toks S};res=ok", "retry:coordinates:announced")
+  | .neverReady => (s!"sel={sel};r=-;start=none;run=-;res=ok", "retry:coordinates:never-ready")
 
 /-- C11 on the implementation's observed behaviour, for an unambiguous cause `k` -/
-def p11 (holders : List String) (k : Class String) (retryable claimantGiven : Bool) (impl : String) : Bool :=
+def p11 (self : String) (holders : List String) (k : Class String) (retryable claimantGiven : Bool) (impl : String) : Bool :=
+  if retryable && decide (self ∈ culprits k) then true else   -- outside second_attempt_clean (self_culprit_point)
   match field impl "sel", field impl "start", field impl "run", field impl "res" with
   | some sel, some start, some run, some res =>
     let ended := sel == "none" && start == "none" && run == "-" && res != "ok"
@@ -135,7 +132,7 @@ def handle (op : String) (args : List String) (impl : String) : Option Verdict :
     | some e =>
       let (m, tag) := second self t sid holders e true claimant arrivals
       let ok := match intended e with
-        | some k => p11 holders k true claimant.isSome impl
+        | some k => p11 self holders k true claimant.isSome impl
         | none => true
       return ⟨m, ok, s!"handle:{classTag (intended e)}:{tag}"⟩
   | "exec", [self, t, sid, holders, retryable, first, claimant, arrivals] => some <| Id.run do
@@ -152,7 +149,7 @@ def handle (op : String) (args : List String) (impl : String) : Option Verdict :
       if c = self then return ⟨"selfcoord", impl == "selfcoord", "exec:selfcoord"⟩
       let e : Err String := .wrap (.coord (some c))
       let (m, tag) := second self t sid holders e retryable claimant arrivals
-      return ⟨"run1=none;" ++ m, p11 holders (.coord (some c)) retryable claimant.isSome impl, s!"exec:silent:retryable={retryable}:{tag}"⟩
+      return ⟨"run1=none;" ++ m, p11 self holders (.coord (some c)) retryable claimant.isSome impl, s!"exec:silent:retryable={retryable}:{tag}"⟩
     let some (some leaf) := parseLeaf first | return bad
     let e : Err String := .wrap (.wrap leaf)
     let run1 := if c = self then
@@ -163,7 +160,7 @@ def handle (op : String) (args : List String) (impl : String) : Option Verdict :
     if run1 = "none" then return ⟨"BADSCENARIO", false, "exec:badscenario"⟩
     let (m, tag) := second self t sid holders e retryable claimant arrivals
     let ok := match intended e with
-      | some k => p11 holders k retryable claimant.isSome impl
+      | some k => p11 self holders k retryable claimant.isSome impl
       | none => true
     return ⟨s!"run1={run1};" ++ m, ok, s!"exec:{if c = self then "coordinator" else "participant"}:retryable={retryable}:{classTag (intended e)}:{tag}"⟩
   | _, _ => none
